@@ -416,12 +416,14 @@ theorem clear_resets_error (s : Api) :
   unfold clear
   simp only []
   split
-  · unfold setIoRatio
-    simp only []
-    repeat' split
-    all_goals first
-      | exact Or.inl rfl
-      | (next he => exact Or.inr ⟨_, rfl, he⟩)
+  · split
+    · unfold setIoRatio
+      simp only []
+      repeat' split
+      all_goals first
+        | exact Or.inl rfl
+        | (next he => exact Or.inr ⟨_, rfl, he⟩)
+    · exact Or.inl rfl
   · exact Or.inl rfl
 
 /-- **`soxr_set_error` as written** (`if (!p->error && p->error != error) return p->error;`): it can never record an
